@@ -37,7 +37,10 @@ KINDS = ["Sphere", "SphereLayered", "LayeredSphere", "Spheres", "Scatterers", "S
          "Mie", "Multisphere", "Tmatrix", "MieLens", "AberratedMieLens", "Lens",
          "NmpfitStrategy", "LeastSquaresScipyStrategy", "CmaStrategy", "EmceeStrategy", "TemperedStrategy",
          "AlphaModel", "ExactModel", "ModelTied", "ModelChannels", "LimitOverlaps", "UncertainValue", "SphereWithPriors",
-         "SharedScalar", "SharedContainer", "SharedObject", "RigidClusterDefaults", "ModelTiedTheory", "ModelXarrayChannels"]
+         "SharedScalar", "SharedContainer", "SharedObject", "RigidClusterDefaults", "ModelTiedTheory", "ModelXarrayChannels",
+         # untouched tuple defaults (F109), a tie that reaches outside the scatterer (F110), a complex prior with both parts fixed (F111),
+         # a transformation that is a NumPy function but not a ufunc (F112)
+         "EllipsoidDefaults", "ModelTieAlpha", "ModelFixedComplex", "NumpyFuncPrior"]
 
 
 def cases(tier, seed):
@@ -47,7 +50,7 @@ def cases(tier, seed):
     for rep in range(n):
         for kind in KINDS:
             out.append({"id": "obj-%d" % k, "kind": "obj", "what": kind, "argstyle": ["python", "numpy", "tuple", "array", "extreme", "none"][(rep + k) % 6],
-                        "cycles": 1 + (k % 3), "target": ["stream", "file"][(k // 3) % 2], "seed": [seed, "obj", k]})
+                        "cycles": 1 + (k % 3), "target": ["stream", "file", "textstream"][(k // 3) % 3], "seed": [seed, "obj", k]})      # (textstream: F113)
             k += 1
     out.append({"id": "inventory", "kind": "inventory"})
     # explicit None for every constructor argument whose default is something else, class by class with parent
@@ -184,6 +187,22 @@ def _make(what, rng, fl):
             return Sphere(n=pr, r=pr, center=[pr, 1.0, 2.0])
         th = Mie(bool(rng.integers(0, 2)), bool(rng.integers(0, 2)))
         return Lens(lens_angle=float(rng.uniform(0.2, 1.2)), theory=th)
+    if what == "EllipsoidDefaults":
+        return Ellipsoid(n=N(lo=1.3, hi=1.8), r=[float(v) for v in rng.uniform(0.3, 1.0, 3)], center=[float(v) for v in rng.normal(size=3)])
+    if what == "NumpyFuncPrior":
+        from holopy.core.prior import TransformedPrior
+        f = [np.mean, np.sum, np.linalg.norm, np.max, np.min, np.prod][int(rng.integers(0, 6))]
+        return TransformedPrior(f, [_prior(rng, "U"), _prior(rng, "G")])
+    if what in ("ModelTieAlpha", "ModelFixedComplex"):
+        from holopy.core.prior import ComplexPrior
+        lo = float(rng.uniform(0.2, 0.6))
+        if what == "ModelTieAlpha":
+            m = AlphaModel(Sphere(n=1.59, r=Uniform(lo, lo + 0.4), center=[1.0, 2.0, _prior(rng, "U")]), alpha=Uniform(lo, lo + 0.4), noise_sd=0.1,
+                           medium_index=1.33, illum_wavelen=0.66, illum_polarization=(1, 0), theory=Mie)
+            m.add_tie(["r", "alpha"], new_name=[None, "shared value"][int(rng.integers(0, 2))])
+            return m
+        return AlphaModel(Sphere(n=ComplexPrior(1.5, float(rng.uniform(0.01, 0.2))), r=Uniform(lo, lo + 0.4), center=[1.0, 2.0, 3.0]), alpha=_prior(rng, "U"),
+                          noise_sd=0.1, medium_index=1.33, illum_wavelen=0.66, illum_polarization=(1, 0), theory=Mie)
     if what == "RigidClusterDefaults":
         # default translation and rotation are the same constant tuple
         return RigidCluster(Spheres([sphere(), sphere()], warn=False))
@@ -394,6 +413,11 @@ def _cycle(obj, target, td, k):
         hp.save(p, obj)
         text = open(p, "rb").read().decode()
         return hp.load(p), text
+    if target == "textstream":
+        tbuf = io.StringIO()             # a stream opened in text mode is a stream target too
+        serialize.save(tbuf, obj)
+        text = tbuf.getvalue()
+        return serialize.load(io.BytesIO(text.encode())), text
     buf = io.BytesIO()
     serialize.save(buf, obj)
     text = buf.getvalue().decode()
@@ -499,8 +523,8 @@ def run_case(case):
                 flags[key] = False
                 i = next((j for j in range(min(len(texts[k]), len(texts[k - 1]))) if texts[k][j] != texts[k - 1][j]), 0)
                 witness.append("text %d vs %d differ at %d: %r vs %r" % (k - 1, k, i, texts[k - 1][max(0, i - 30):i + 40], texts[k][max(0, i - 30):i + 40]))
-        # (library equality is claimed for list / scalar arguments only: these two kinds hold tuples or arrays whatever the style)
-        if case["argstyle"] == "python" and not isinstance(obj, Model) and case["what"] not in ("RigidClusterDefaults", "SharedContainer"):
+        # (library equality is claimed for list / scalar arguments only: this kind holds arrays whatever the style)
+        if case["argstyle"] == "python" and not isinstance(obj, Model) and case["what"] not in ("SharedContainer",):
             try:
                 flags["library_equality"] = bool(cur == obj)
             except Exception as e:
